@@ -104,7 +104,11 @@ class Gen:
             return "Box<dyn %s>" % " + ".join(bs)
         if r < 0.9:
             return "impl %s" % self.bound(depth - 1, use)
-        if r < 0.96:
+        if r < 0.93:
+            # generic arguments on a non-final path segment are uses too
+            form = self.rng.choice(["Outer<%s>::Inner", "a::Mk<%s>::Out<u8>", "<u8 as Tr<%s>>::Out", "Outer<%s>::Mid::Inner"])
+            return form % sub()
+        if r < 0.97:
             # qualified self: a use only for declaration purposes
             inner = self.ty(depth - 1, use and self.declare)
             return "<%s as %s>::Out" % (inner, self.rng.choice(["Tr", "Iterator", "a::Tr<u8>"]))
